@@ -1,149 +1,41 @@
 use std::collections::HashSet;
+use syn::ext::IdentExt;
 use syn::visit_mut::VisitMut;
 
-#[derive(Copy, Clone, Eq, PartialEq)]
-enum ParamStatus {
-    Ok,
-    NeedsFix,
-}
-
-impl ParamStatus {
-    fn is_ok(self) -> bool {
-        matches!(self, Self::Ok)
-    }
-
-    fn combine(self, other: ParamStatus) -> Self {
-        match (self, other) {
-            (Self::Ok, Self::Ok) => Self::Ok,
-            _ => Self::NeedsFix,
-        }
-    }
-}
-
+/// Give every typed parameter a plain identifier which the delegating method can forward:
+/// pairwise distinct, and different from the name of the function that is to be called.
 pub fn fix_fn_param_idents(sig: &mut syn::Signature) {
-    if fix_ident_conflicts(sig).is_ok() {
-        return;
-    }
+    let fn_ident_string = sig.ident.unraw().to_string();
 
-    if lift_inner_pat_idents(sig).is_ok() {
-        return;
-    }
-
-    autogenerate_for_non_idents(sig);
-}
-
-fn fix_ident_conflicts(sig: &mut syn::Signature) -> ParamStatus {
-    let mut status = ParamStatus::Ok;
-    let fn_ident_string = sig.ident.to_string();
-
+    // Reduce every pattern that provides a name to that plain identifier
     for fn_arg in sig.inputs.iter_mut() {
-        let arg_status = match fn_arg {
-            syn::FnArg::Receiver(_) => ParamStatus::Ok,
-            syn::FnArg::Typed(pat_type) => match pat_type.pat.as_mut() {
-                syn::Pat::Ident(param_ident) => {
-                    if param_ident.ident == fn_ident_string {
-                        param_ident.ident = syn::Ident::new(
-                            &format!("{}_", param_ident.ident),
-                            param_ident.ident.span(),
-                        );
-                    }
-
-                    ParamStatus::Ok
+        if let syn::FnArg::Typed(pat_type) = fn_arg {
+            match pat_type.pat.as_mut() {
+                syn::Pat::Ident(pat_ident) => {
+                    // `mut a`, `ref a`, `a @ ..` are not allowed in functions without body
+                    pat_ident.by_ref = None;
+                    pat_ident.mutability = None;
+                    pat_ident.subpat = None;
                 }
-                _ => ParamStatus::NeedsFix,
-            },
-        };
-
-        status = status.combine(arg_status);
-    }
-
-    status
-}
-
-fn lift_inner_pat_idents(sig: &mut syn::Signature) -> ParamStatus {
-    fn try_lift_unambiguous_inner(pat: &mut syn::Pat) -> ParamStatus {
-        struct PatIdentSearcher {
-            first_binding_pat_ident: Option<syn::Ident>,
-            binding_pat_count: usize,
-        }
-
-        impl syn::visit_mut::VisitMut for PatIdentSearcher {
-            fn visit_pat_ident_mut(&mut self, i: &mut syn::PatIdent) {
-                let ident_string = i.ident.to_string();
-
-                match ident_string.chars().next() {
-                    Some(char) if char.is_lowercase() => {
-                        self.binding_pat_count += 1;
-                        if self.first_binding_pat_ident.is_none() {
-                            self.first_binding_pat_ident = Some(i.ident.clone());
-                        }
-                    }
-                    _ => {}
-                }
+                pat => try_lift_unambiguous_inner(pat),
             }
         }
-
-        let mut searcher = PatIdentSearcher {
-            first_binding_pat_ident: None,
-            binding_pat_count: 0,
-        };
-
-        searcher.visit_pat_mut(pat);
-
-        if searcher.binding_pat_count == 1 {
-            let ident = searcher.first_binding_pat_ident;
-            *pat = syn::parse_quote! { #ident };
-
-            ParamStatus::Ok
-        } else {
-            ParamStatus::NeedsFix
-        }
     }
 
-    let mut status = ParamStatus::Ok;
-
-    for fn_arg in &mut sig.inputs {
-        let param_status = match fn_arg {
-            syn::FnArg::Receiver(_) => ParamStatus::Ok,
-            syn::FnArg::Typed(pat_type) => match pat_type.pat.as_mut() {
-                syn::Pat::Ident(_) => ParamStatus::Ok,
-                pat => try_lift_unambiguous_inner(pat),
-            },
-        };
-
-        status = status.combine(param_status);
-    }
-
-    status
-}
-
-fn autogenerate_for_non_idents(sig: &mut syn::Signature) {
+    // The identifiers that are kept as written, and the function itself
     let mut taken_idents: HashSet<String> = sig
         .inputs
         .iter()
         .filter_map(|fn_arg| match fn_arg {
             syn::FnArg::Receiver(_) => None,
             syn::FnArg::Typed(pat_type) => match pat_type.pat.as_ref() {
-                syn::Pat::Ident(pat_ident) => Some(pat_ident.ident.to_string()),
+                syn::Pat::Ident(pat_ident) => Some(pat_ident.ident.unraw().to_string()),
                 _ => None,
             },
         })
+        .filter(|ident_string| *ident_string != fn_ident_string)
         .collect();
-
-    fn generate_ident(index: usize, attempts: usize, taken_idents: &mut HashSet<String>) -> String {
-        let ident = format!(
-            "{}arg{}",
-            (0..attempts).map(|_| '_').collect::<String>(),
-            index,
-        );
-
-        if taken_idents.contains(&ident) {
-            generate_ident(index, attempts + 1, taken_idents)
-        } else {
-            taken_idents.insert(ident.clone());
-            ident
-        }
-    }
+    taken_idents.insert(fn_ident_string.clone());
 
     let pat_type_args = sig.inputs.iter_mut().filter_map(|fn_arg| match fn_arg {
         syn::FnArg::Typed(pat_type) => Some(pat_type),
@@ -152,13 +44,84 @@ fn autogenerate_for_non_idents(sig: &mut syn::Signature) {
 
     for (index, pat_type_arg) in pat_type_args.enumerate() {
         match pat_type_arg.pat.as_mut() {
-            syn::Pat::Ident(_) => {}
+            syn::Pat::Ident(pat_ident) => {
+                // A parameter named like the function would shadow it in the delegating call
+                if pat_ident.ident.unraw() == fn_ident_string {
+                    let new_ident_string = rename_ident(&fn_ident_string, 1, &mut taken_idents);
+                    pat_ident.ident = syn::Ident::new(&new_ident_string, pat_ident.ident.span());
+                }
+            }
             _ => {
                 let new_ident_string = generate_ident(index, 0, &mut taken_idents);
                 let new_ident = quote::format_ident!("{}", new_ident_string);
                 *pat_type_arg.pat = syn::parse_quote! { #new_ident };
             }
         }
+    }
+}
+
+fn try_lift_unambiguous_inner(pat: &mut syn::Pat) {
+    struct PatIdentSearcher {
+        first_binding_pat_ident: Option<syn::Ident>,
+        binding_pat_count: usize,
+    }
+
+    impl syn::visit_mut::VisitMut for PatIdentSearcher {
+        fn visit_pat_ident_mut(&mut self, i: &mut syn::PatIdent) {
+            let ident_string = i.ident.to_string();
+
+            match ident_string.chars().next() {
+                Some(char) if char.is_lowercase() => {
+                    self.binding_pat_count += 1;
+                    if self.first_binding_pat_ident.is_none() {
+                        self.first_binding_pat_ident = Some(i.ident.clone());
+                    }
+                }
+                _ => {}
+            }
+        }
+    }
+
+    let mut searcher = PatIdentSearcher {
+        first_binding_pat_ident: None,
+        binding_pat_count: 0,
+    };
+
+    searcher.visit_pat_mut(pat);
+
+    if searcher.binding_pat_count == 1 {
+        let ident = searcher.first_binding_pat_ident;
+        *pat = syn::parse_quote! { #ident };
+    }
+}
+
+fn rename_ident(ident: &str, underscores: usize, taken_idents: &mut HashSet<String>) -> String {
+    let new_ident = format!(
+        "{}{}",
+        ident,
+        (0..underscores).map(|_| '_').collect::<String>(),
+    );
+
+    if taken_idents.contains(&new_ident) {
+        rename_ident(ident, underscores + 1, taken_idents)
+    } else {
+        taken_idents.insert(new_ident.clone());
+        new_ident
+    }
+}
+
+fn generate_ident(index: usize, attempts: usize, taken_idents: &mut HashSet<String>) -> String {
+    let ident = format!(
+        "{}arg{}",
+        (0..attempts).map(|_| '_').collect::<String>(),
+        index,
+    );
+
+    if taken_idents.contains(&ident) {
+        generate_ident(index, attempts + 1, taken_idents)
+    } else {
+        taken_idents.insert(ident.clone());
+        ident
     }
 }
 
